@@ -519,8 +519,12 @@ func runSrvScenario(sc srvScenario, scn int, res *hx.Result) []srvEvent {
 			}
 			r.mu.Unlock()
 		case "pause":
-			// let the server settle (e.g. take a completion a released handler offers)
-			time.Sleep(5 * time.Millisecond)
+			// let the server settle (e.g. take a completion a released handler offers); K: milliseconds (default 5)
+			ms := st.K
+			if ms == 0 {
+				ms = 5
+			}
+			time.Sleep(time.Duration(ms) * time.Millisecond)
 		case "fault":
 			if !faulted {
 				inject(st.Kind)
